@@ -404,6 +404,11 @@ func parentMain() {
 	sem := make(chan struct{}, runtime.NumCPU())
 	var wg sync.WaitGroup
 	deadline := argVal("-deadline-min")
+	if deadline == "" && tier == "thorough" {
+		// per-scenario deadline of the thorough tier: a scenario that does not finish its largest preemption bound in
+		// time reports the bound it completed (iterative bounding) and exhaustive:false - it never fails for that
+		deadline = "30"
+	}
 	for i, n := range names {
 		wg.Add(1)
 		go func(i int, n string) {
